@@ -26,7 +26,7 @@ type rot struct {
 // settle waits for what the background rotation thread has to do after a
 // clock change: a rotation if one is due, else one poll.
 func (r *rot) settle() error {
-	deadline := time.Now().Add(5 * time.Second)
+	deadline := time.Now().Add(10 * time.Second)
 	for {
 		off := r.Srv.VerifSnapshot().Offset
 		r.off = off
@@ -34,7 +34,9 @@ func (r *rot) settle() error {
 			break
 		}
 		if time.Now().After(deadline) {
-			return fmt.Errorf("no rotation although now-offset=%d", int64(r.Now())-int64(off))
+			// recorded, not decided here: the trace specification rejects it
+			r.T.Emit(hx.J{"a": "RotationOverdue", "now": int(r.Now()), "offset": int(off)})
+			break
 		}
 		time.Sleep(10 * time.Millisecond)
 	}
